@@ -12,6 +12,7 @@ pub mod runner;
 pub mod simexec;
 pub mod simio;
 
+pub use runner::fuzzstage::{self as fuzz, FuzzEntry, FuzzTarget, FuzzVerdict, HexCase};
 pub use runner::{Ctx, Outcome, Tier};
 
 /// Monotone index map recommended for shrinking: maps a generated u16 onto 0..len.
